@@ -412,8 +412,10 @@ func runRead[V any](vt vtype[V], c caseSpec) (o outcome) {
 		dd["keys_differing"] = bad
 		dd["observed_later_txn"] = got[target]
 		dd["caller_view_after_mutation"] = after
-		// cold process: is the committed value still what the disk holds?
-		if cold, cerr := coldRead(dir, vt.name, target); cerr == nil {
+		// cold process (once per signature): is the committed value still what the disk holds?
+		if !firstOf(sig(c, "later-txn-sees-mutation")) {
+			dd["cold_process_reads"] = "(not taken: an earlier case with this signature has it)"
+		} else if cold, cerr := coldRead(dir, vt.name, target); cerr == nil {
 			dd["cold_process_reads"] = cold
 			dd["disk_intact"] = cold == want[target]
 		} else {
@@ -553,6 +555,17 @@ func runWriter[V any](vt vtype[V], c caseSpec) (o outcome, leaked bool) {
 	return
 }
 
+var seenSig = map[string]bool{}
+
+// firstOf reports whether this is the first time the signature is seen in this run.
+func firstOf(sg string) bool {
+	if seenSig[sg] {
+		return false
+	}
+	seenSig[sg] = true
+	return true
+}
+
 func sig(c caseSpec, outcomeClass string) string {
 	return fmt.Sprintf("C38:%s:%s:%s:%s", c.VT, c.Profile, c.API, outcomeClass)
 }
@@ -676,7 +689,7 @@ func dispatchT[V any](vt vtype[V], c caseSpec) (outcome, bool) {
 
 func Run(r *report.Run) int {
 	rnd := env.Rand(r.Seed, "c38-plan")
-	reps := r.Pick(1, 4)
+	reps := r.Pick(1, 3)
 	slots := []int{2, 4, 8, 16}
 	var cases []caseSpec
 	n := 0
